@@ -90,6 +90,7 @@ Definition val_encodable (f : tfield) (v : tval) : Prop :=
   | FEnum k, VInt z => 0 <= z <= enum_max k
   | FIntC maxv, VInt z => 0 <= z <= maxv
   | FSigTime, VInt z => 0 <= z <= 4294967295
+  | FOct16, VInt z => 0 <= z <= 65535
   | _, _ => True
   end.
 
@@ -113,7 +114,7 @@ Qed.
 Theorem parse_field_encodable c f st raw st' v :
   parse_field c f st = Ok (raw, st') -> ctor_field f raw = Ok v -> val_encodable f v.
 Proof.
-  destruct f as [maxv| |tokmax ctormax ne| | |sc| |v6| | | | | |k| |maxc| |en|]; cbn [parse_field]; intros H Hc.
+  destruct f as [maxv| |tokmax ctormax ne| | |sc| |v6| | | | | |k| |maxc| |en| |]; cbn [parse_field]; intros H Hc.
   - unfold get_uint, as_uint in H.
     destruct (get_unescaped st) as [[t s1]| |]; cbn [bind fst snd] in H; try discriminate.
     destruct (as_int t 10) as [z| |]; cbn [bind fst snd] in H; try discriminate.
@@ -164,6 +165,11 @@ Proof.
     cbn [val_encodable]. lia.
   - destruct v; exact Logic.I.
   - destruct v; exact Logic.I.
+  - unfold get_uint, as_uint in H.
+    destruct (get_unescaped st) as [[t s1]| |]; cbn [bind fst snd] in H; try discriminate.
+    destruct (as_int t 8) as [z| |]; cbn [bind fst snd] in H; try discriminate.
+    destruct ((z <? 0) || (z >? max16)) eqn:E; cbn [bind fst snd] in H; try discriminate.
+    inversion H; subst. cbn [ctor_field] in Hc. inversion Hc; subst. cbn [val_encodable]. unfold max16 in E. lia.
 Qed.
 
 (* names accepted from text satisfy the DNS limits (hence to_wire with an origin cannot fail on length) *)
